@@ -153,6 +153,14 @@ func gen(r *kit.Rand, big bool) dcase {
 	if r.Chance(15) {
 		c.calls = int(r.Range(0, int64(c.calls)+n)) // partial cycles too
 	}
+	if (c.kind == 2 || c.kind == 1) && r.Chance(6) {
+		// negative rates (negative staged targets, NaN gaussian rates) must not crash
+		for i := range c.rates {
+			if r.Chance(50) {
+				c.rates[i] = -r.Range(1, 3*n+5)
+			}
+		}
+	}
 	if c.kind == 2 {
 		k := c.calls
 		c.rands = make([]int64, k)
